@@ -92,6 +92,9 @@ fn gen_c05(ctx: &GenCtx, i: u64) -> Option<Run> {
     let footer = match i % 4 {
         0 => None,
         1 => Some(String::new()),
+        2 if r.chance(1, 4) => Some(format!("{}\u{fffd}{}", ascii!(r, r.usize(6)), nonempty_text!(r, 6))),
+        // sometimes a footer of several kilobytes (or beyond 64 KiB)
+        3 if r.chance(1, 12) && !matches!(proto, Proto::V3P | Proto::V1P) => Some(ascii!(r, *r.pick(&[4095usize, 4096, 4097, 65_535, 65_536, 70_001]))),
         _ => Some(if r.chance(1, 2) { ascii!(r, 1 + r.usize(24)) } else { nonempty_text!(r, 24) }),
     };
     let assertion = if proto.has_assertion() { gen_opt_text(&mut r).map(|f| f.chars().take(10).collect::<String>()) } else { None };
@@ -178,6 +181,9 @@ fn gen_c05(ctx: &GenCtx, i: u64) -> Option<Run> {
         for ext in ["x", "\0", " ", "AAAA"] {
             outs.push(rb.fault(t.msg, FaultKind::FooterReplace { text: format!("{}{}", f, ext) }, None));
         }
+    }
+    if let Some(f) = &footer {
+        super::c03::raw_footer_edits(&mut rb, t.msg, f, &mut outs);
     }
     // the footer *segment text* cut or extended by single base64 symbols
     for text in ["A", "AA", "_", "="] {
